@@ -11,8 +11,10 @@ RULE = ("cases = (estimator in {density, time-sensitive density, dimensionality 
         "inferred}, kernel, jitter, latent vector from a real fit or an arbitrary vector through the staged API); each case "
         "checks predict(X) against the fitted values with the bound of its family, normalize=True, exp/logscale, and rebuilds "
         "the predictor in the Lean model; non-trivial = fitted values not constant")
-PARTIAL = ["the jitter-proportional bounds contain |w| (depends on conditioning): the theorem is the identity "
-           "predict(x_i) - fitted_i = -jitter * w_i (full) resp. the DTC error formula; the check evaluates it with the implementation's own weights"]
+PARTIAL = ["the jitter-proportional bound for full models is proved as sum_i err_i^2 <= (jitter/(lambda+jitter))^2 * sum_i (fitted_i-mu)^2 "
+           "for a kernel matrix >= lambda*I (full_insample_bound; lambda = 0 for any PSD kernel), together with the identity "
+           "err_i = -jitter * w_i; for DTC models the theorem is the error formula (its size depends on the conditioning of the "
+           "inducing system); the check evaluates both with the implementation's own weights"]
 ASSUMPTIONS = ["k-means landmark placement is arbitrary (any landmark set satisfies the identities)"]
 CLAIM = {
     "text": "Lean theorems over R: Cholesky-latent predictor at the training cells equals mu + (L z)_i exactly when the same factor "
